@@ -660,6 +660,7 @@ structure Inst where
   store : Store Json := []
   objs : Store Json := []
   shadow : List (Text × GoVal) := []      -- specification: the Go value last stored under each variable
+  objShadow : List (Text × GoVal) := []   -- … and under each data object
   results : List (Text × GoVal) := []
   dobjs : List (Text × GoVal) := []
   applied : Bool := false                  -- results / data outputs already folded into store / objs
@@ -700,12 +701,22 @@ def applyAnswer (cfg : Cfg) (d : Decls) (i : Inst) : Inst := Id.run do
   for (k, v) in i.dobjs.reverse do
     if d.outs.contains k then
       match newValue cfg codec v with
-      | .ok mv => i := { i with objs := i.objs.set k mv }
+      | .ok mv => i := { i with objs := i.objs.set k mv, objShadow := shadowSet i.objShadow k v }
       | .error _ => i := { i with crashPredicted := true }
   return i
 
-def checkEngine (cfg : Cfg) (lines : List String) : CaseResult := Id.run do
+/-- give the generic store signatures of `judgeGot` the signature of the shared-option case -/
+def renameIso (iso m : String) : String :=
+  match m.splitOn ": " with
+  | sig :: rest =>
+    if sig == "instances_not_isolated" || sig == "stored_value_missing" then iso ++ " " ++ ": ".intercalate rest else m
+  | [] => m
+
+def checkEngine (cfg : Cfg) (lines : List String) (shared : Bool := false) : CaseResult := Id.run do
+  -- isolation failures of instances created from one shared option slice get their own signature
+  let iso := if shared then "instances_share_store_via_shared_option:" else "instances_not_isolated:"
   let mut st : St := {}
+  let mut pendingGet : Option Text := none
   let mut d : Decls := {}
   let mut insts : Array Inst := #[]
   let mut cur : Nat := 0
@@ -736,16 +747,16 @@ def checkEngine (cfg : Cfg) (lines : List String) : CaseResult := Id.run do
         while insts.size ≤ i do insts := insts.push {}
       | none => st := st.bad ln
     | tag :: k :: g =>
-      if tag == "var" || tag == "obj" || tag == "result" || tag == "dobj" then
+      if tag == "var" || tag == "obj" || tag == "result" || tag == "dobj" || tag == "setvar" then
         match keyTok k, parseGAll g with
         | some k, some v =>
-          if tag == "var" then
+          if tag == "var" || tag == "setvar" then
             match newValue cfg codec v with
             | .ok mv => insts := insts.setIfInBounds cur { inst with store := inst.store.set k mv, shadow := shadowSet inst.shadow k v }
             | .error _ => insts := insts.setIfInBounds cur { inst with crashPredicted := true }
           else if tag == "obj" then
             match newValue cfg codec v with
-            | .ok mv => insts := insts.setIfInBounds cur { inst with objs := inst.objs.set k mv }
+            | .ok mv => insts := insts.setIfInBounds cur { inst with objs := inst.objs.set k mv, objShadow := shadowSet inst.objShadow k v }
             | .error _ => insts := insts.setIfInBounds cur { inst with crashPredicted := true }
           else if tag == "result" then insts := insts.setIfInBounds cur { inst with results := (k, v) :: inst.results }
           else insts := insts.setIfInBounds cur { inst with dobjs := (k, v) :: inst.dobjs }
@@ -778,6 +789,8 @@ def checkEngine (cfg : Cfg) (lines : List String) : CaseResult := Id.run do
           match tbl.get k with
           | some mv => if !valueAgrees mv o then st := st.diff s!"final {tag} {showText k}: model {showVal mv} differs"
           | none => st := st.diff s!"final {tag} {showText k}: not in the model's store"
+          if tag == "fobj" && !(inst.objShadow.any (·.1 == k)) then
+            st := st.spec s!"{iso} instance {cur} ends with data object {showText k} which it never stored"
           if tag == "fvar" then
             insts := insts.setIfInBounds cur { inst with seen := k :: inst.seen }
             pendingVar := some (tag, k)
@@ -794,12 +807,36 @@ def checkEngine (cfg : Cfg) (lines : List String) : CaseResult := Id.run do
           | some mr => if !backAgrees mr b then st := st.diff s!"final variable {showText k}: read-back differs from model"
           | none => pure ()
           match (inst.shadow.find? (·.1 == k)).map (·.2) with
-          | none => st := st.spec s!"instances_not_isolated: instance {cur} ends with variable {showText k} which it never stored"
+          | none => st := st.spec s!"{iso} instance {cur} ends with variable {showText k} which it never stored"
           | some v =>
             if supported v && !backDenotes b v then
-              st := st.spec s!"engine_roundtrip_lost_{kindWord v}: instance {cur} variable {showText k} does not read back as the value stored"
+              let sig := if shared then iso else s!"engine_roundtrip_lost_{kindWord v}:"
+              st := st.spec s!"{sig} instance {cur} variable {showText k} does not read back as the value it stored ({kindWord v})"
         | _, _, _ => st := st.bad ln
-      else if tag == "foback" then pure ()
+      else if tag == "foback" then
+        match keyTok k, parseBack g with
+        | some k, some b =>
+          match (inst.objShadow.find? (·.1 == k)).map (·.2) with
+          | some v =>
+            if supported v && !backDenotes b v then
+              let sig := if shared then iso else s!"engine_roundtrip_lost_{kindWord v}:"
+              st := st.spec s!"{sig} instance {cur} data object {showText k} does not read back as the value it stored ({kindWord v})"
+          | none => pure ()
+        | _, _ => st := st.bad ln
+      else if tag == "gvar" then
+        match keyTok k with
+        | some k => insts := insts.setIfInBounds cur (applyAnswer cfg d inst); pendingGet := some k
+        | none => st := st.bad ln
+      else if tag == "got" then
+        match pendingGet with
+        | some key =>
+          pendingGet := none
+          let sh := (inst.shadow.find? (·.1 == key)).map (·.2)
+          let before := st.r.specs.length
+          st := judgeGot st ((inst.store.get key).map (valueFor codec)) sh (k :: g) s!"instance {cur} GetVariable({showText key})"
+          if shared && st.r.specs.length > before then
+            st := { st with r := { st.r with specs := st.r.specs.map (renameIso iso) } }
+        | none => st := st.bad ln
       else if tag == "crash" then
         -- `crash <scenario> <0|1> <why>`: k is the scenario, g = [flag, why]
         let predicted := (insts.getD 0 {}).crashPredicted ||
@@ -835,6 +872,7 @@ def check (params lines : List String) : CaseResult :=
     | "fn" :: _ => checkFn cfg lines
     | "store" :: _ => checkStore cfg lines
     | "ref" :: _ => checkRef cfg lines
+    | "engine" :: "shared" :: _ => checkEngine cfg lines true
     | "engine" :: _ => checkEngine cfg lines
     | "crash" :: _ => checkEngine cfg lines
     | _ => { bad := ["c16 params"] }
